@@ -43,8 +43,8 @@ UNITS = [
     U("U-defaults", ["options::Options::default"], ["options_default"], ["C14"], domain="no input: complete", mem_gb=4, timeout=300, assumes=[A_DROP]),
     U("U-isconst", ["util::is_jsx_attr_value_constant", "util::is_constant"], ISCONST_Q, ["C13"], completeness="bounded",
       domain="7 leaf kinds bare and in array / two-element array / spread wrappers, nesting depth <= 2 (the object-literal wrapper is thorough-tier)", mem_gb=6, timeout=900, assumes=[A_DROP, A_CLONE]),
-    U("U-isconst-more", ["util::is_jsx_attr_value_constant", "util::is_constant"], [h for h in ISCONST if h not in ISCONST_Q], ["C13"], completeness="bounded", tier="out_of_reach",
-      domain="4 leaf kinds inside an object literal", mem_gb=24, timeout=2400, assumes=[A_DROP, A_CLONE]),
+    U("U-isconst-more", ["util::is_jsx_attr_value_constant", "util::is_constant"], [h for h in ISCONST if h not in ISCONST_Q], ["C13"], completeness="bounded", tier="thorough",
+      domain="4 leaf kinds inside an object literal (5 min and > 16 GB per harness)", mem_gb=28, timeout=2400, assumes=[A_DROP, A_CLONE]),
     U("U-tag", ["VueJsxTransformVisitor::transform_tag", "VueJsxTransformVisitor::is_component", "VueJsxTransformVisitor::import_from_vue"],
       TAGS + ["tag_member", "tag_member_fragment", "tag_member_keepalive", "tag_member_fragment_alias"], ["C01", "C02", "C03", "C08"], domain="9 tag names x {no pattern, ^x-} x symbolic {unresolved, 4 options}", mem_gb=6, timeout=900, assumes=[A_DROP, A_CLONE, A_FMT]),
     U("U-tag-fragment", ["VueJsxTransformVisitor::is_component"], ["tag_fragment_not_component"], ["C02", "C03", "C10"], domain="`Fragment` x symbolic history", mem_gb=8, assumes=[A_DROP, A_FMT]),
